@@ -1,3 +1,10 @@
 package main
 
-func extra() {}
+// zs emits a list of numbers.
+func zs(name string, vs []uint64) {
+	parts := make([]string, len(vs))
+	for i, x := range vs {
+		parts[i] = fmtU(x)
+	}
+	out.WriteString("Definition " + name + " : list Z := [" + join(parts, "; ") + "].\n")
+}
